@@ -128,6 +128,11 @@ def build(spec, hashes=None, chashes=None, fresh_strings=False, plain=False):
         for k in ps.get("inputs", []):
             wps[i].append_input_workplace(wps[k])
     org = BaseOrganization(team_list=teams, workplace_list=wps)
+    for i, ts in enumerate(spec["tasks"]):
+        if ts.get("wps_order") is not None:     # the task's own preference order of its workplaces
+            cur = tasks[i].allocated_workplace_list
+            if sorted(ts["wps_order"]) == sorted(wps.index(q) for q in cur):
+                tasks[i].allocated_workplace_list = [wps[k] for k in ts["wps_order"]]
 
     import datetime
     project = BaseProject(
